@@ -111,8 +111,8 @@ func corpusCase(prop string, idx int, residue bool) core.Result {
 
 func init() {
 	register(&core.Property{
-		ID: "C01",
-		Rule: "sessions of 2..8 top-level statements from the typed generator (global values, function/generator/recursive definitions with closures, expressions over every operator and operand source, blocks, if/else, counted while loops, for loops over built-in and user generators, writes), each executed by the reference semantics and by the real parser->STRewrite->ByteCode|ByteCodeNoStck->VM pipeline (even indices REPL mode, odd indices script mode); value tree, output bytes and error class compared per statement. non-trivial = at least 25 reference evaluation steps and at least one call or loop iteration; distinct by session tree and mode.",
+		ID:          "C01",
+		Rule:        "sessions of 2..8 top-level statements from the typed generator (global values, function/generator/recursive definitions with closures, expressions over every operator and operand source, blocks, if/else, counted while loops, for loops over built-in and user generators, writes), each executed by the reference semantics and by the real parser->STRewrite->ByteCode|ByteCodeNoStck->VM pipeline (even indices REPL mode, odd indices script mode); value tree, output bytes and error class compared per statement. non-trivial = at least 25 reference evaluation steps and at least one call or loop iteration; distinct by session tree and mode.",
 		Assumptions: []string{"the reference semantics (harness/rs) is the executable form of the README (DESIGN.md 4.2); programs that rely on something the README leaves open are detected by the reference itself and dropped (counted)", "float rendering is Go's shortest round-trip formatting"},
 		Families: []core.Family{
 			{Name: "corpus", Count: func(string) int { return len(corpusSessions()) * 2 * len(stressModes) }, Run: func(_ *core.Ctx, idx int) core.Result { return corpusCase("C01", idx, false) }},
